@@ -10,16 +10,15 @@ variable {α : Type} {isna : α → Bool}
 
 /-! ### directional: the whole row -/
 
-theorem runDir_spec (fwd : Bool) (limit : Nat) (fixed : Bool)
-    (hfix : fwd = true ∨ fixed = true ∨ limit = 0)
+theorem runDir_spec (fwd : Bool) (limit : Nat)
     (st : Option (Bridge α)) (blocks : List (RBlock α)) (last : Option α) (cnt : Nat)
     (hinv : Inv isna limit st last cnt) :
-    ((runDir isna fwd limit fixed st blocks).map (orient fwd)).flatten =
+    ((runDir isna fwd limit st blocks).map (orient fwd)).flatten =
       ffill isna limit ((blocks.map fun b => orient fwd b.cells).flatten) last cnt := by
   induction blocks generalizing st last cnt with
   | nil => simp [runDir, ffill]
   | cons b bs ih =>
-    obtain ⟨h1, h2⟩ := stepDir_spec fwd limit fixed hfix st b last cnt hinv
+    obtain ⟨h1, h2⟩ := stepDir_spec fwd limit st b last cnt hinv
     simp only [runDir, List.map_cons, List.flatten_cons]
     rw [ffill_append, ← h1, ih _ _ _ h2]
 
@@ -35,18 +34,18 @@ theorem flatten_reverse_map_reverse (L : List (List α)) :
   have : (List.reverse ∘ List.reverse : List α → List α) = id := by funext l; simp
   rw [this]; simp
 
-theorem rowDir_fwd (limit : Nat) (fixed : Bool) (blocks : List (RBlock α)) :
-    (rowDirAxis1 isna true limit fixed blocks).flatten =
+theorem rowDir_fwd (limit : Nat) (blocks : List (RBlock α)) :
+    (rowDirAxis1 isna true limit blocks).flatten =
       ffillSpec isna limit (blocks.map RBlock.cells).flatten := by
-  have := runDir_spec (isna := isna) true limit fixed (Or.inl rfl) none blocks none 0 (inv_init limit)
+  have := runDir_spec (isna := isna) true limit none blocks none 0 (inv_init limit)
   have e : (orient true : List α → List α) = id := by funext l; simp [orient]
   rw [e] at this
   simpa [rowDirAxis1, ffillSpec] using this
 
-theorem rowDir_bwd (limit : Nat) (fixed : Bool) (hfix : fixed = true ∨ limit = 0) (blocks : List (RBlock α)) :
-    (rowDirAxis1 isna false limit fixed blocks).flatten =
+theorem rowDir_bwd (limit : Nat) (blocks : List (RBlock α)) :
+    (rowDirAxis1 isna false limit blocks).flatten =
       bfillSpec isna limit (blocks.map RBlock.cells).flatten := by
-  have := runDir_spec (isna := isna) false limit fixed (Or.inr hfix) none blocks.reverse none 0 (inv_init limit)
+  have := runDir_spec (isna := isna) false limit none blocks.reverse none 0 (inv_init limit)
   simp only [rowDirAxis1, Bool.false_eq_true, if_false, bfillSpec]
   rw [flatten_reverse_map_reverse]
   have e : (orient false : List α → List α) = List.reverse := by
@@ -386,17 +385,19 @@ theorem seriesFillSided_spec (leading : Bool) (v : α) (a : List α) :
     · rw [if_neg hs]
       exact sided_assign_spec leading v a
 
-theorem colSidedAxis0_spec (leading : Bool) (v : α) (oneD others : Bool) (col : List α) (hne : col ≠ []) :
+theorem colSidedAxis0_spec (leading : Bool) (v : α) (oneD others : Bool) (col : List α) :
     colSidedAxis0 isna leading v oneD others col =
-      .ok (if leading then fillLeading isna v col else fillTrailing isna v col) := by
+      if leading then fillLeading isna v col else fillTrailing isna v col := by
   unfold colSidedAxis0
   simp only
   cases he : (if leading then (col.map isna).head? else (col.map isna).getLast?) with
   | none =>
-    exfalso
-    cases leading with
-    | true => simp only [if_true] at he; simp at he; exact hne he
-    | false => simp only [Bool.false_eq_true, if_false] at he; simp at he; exact hne he
+    have hnil : col = [] := by
+      cases leading with
+      | true => simp only [if_true] at he; simpa using he
+      | false => simp only [Bool.false_eq_true, if_false] at he; simpa using he
+    subst hnil
+    cases leading <;> simp [fillLeading, fillTrailing]
   | some edgeNA =>
     simp only
     cases edgeNA with
@@ -406,5 +407,16 @@ theorem colSidedAxis0_spec (leading : Bool) (v : α) (oneD others : Bool) (col :
     | true =>
       have := sided_assign_spec (isna := isna) leading v col
       cases oneD <;> cases others <;> simp [this]
+
+theorem colSidedAxis0Pinned_spec (leading : Bool) (v : α) (oneD others : Bool) (col : List α) (hne : col ≠ []) :
+    colSidedAxis0Pinned isna leading v oneD others col = .ok (colSidedAxis0 isna leading v oneD others col) := by
+  unfold colSidedAxis0Pinned
+  cases he : (if leading then (col.map isna).head? else (col.map isna).getLast?) with
+  | none =>
+    exfalso
+    cases leading with
+    | true => simp only [if_true] at he; simp at he; exact hne he
+    | false => simp only [Bool.false_eq_true, if_false] at he; simp at he; exact hne he
+  | some e => rfl
 
 end SF.NA
